@@ -11,7 +11,7 @@ PROP = {
     ],
 }
 TEXT = {
-    "text": "Coq theorems over all int64 unix times / uint32 slots (round trip, monotonicity, refusal before genesis, exact int64-widened comparison for every 32-bit pair) and a schedule invariant proved by induction over arbitrary event lists; the genesis date and the cadence inequality are re-proved on constants regenerated from a production-tag build and from go/ast literal extraction on every run; the executable model is compared with glow.UnixToTimeslot/TimeslotToUnix/CurrentTimeslot of a production-tag binary on boundary-stride and random inputs. Added after seeded-change rounds: the production rotation schedule simulated from the same constants (first clock value at which an acceptable report leaves the window = failing input), clock values up to 2^32-1 through hook VerifSetWindowOffset, clock and timeslot at opposite ends of the range, rotation check with the clock behind the window; named integer constants are resolved by the literal extractor.",
+    "text": "Coq theorems over all int64 unix times / uint32 slots (round trip, monotonicity, refusal before genesis, exact int64-widened comparison for every 32-bit pair) and a schedule invariant proved by induction over arbitrary event lists; the genesis date and the cadence inequality are re-proved on constants regenerated from a production-tag build and from go/ast literal extraction on every run; the executable model is compared with glow.UnixToTimeslot/TimeslotToUnix/CurrentTimeslot of a production-tag binary on boundary-stride and random inputs. Added after seeded-change rounds: the production rotation schedule simulated from the same constants (first clock value at which an acceptable report leaves the window = failing input), clock values up to 2^32-1 through hook VerifSetWindowOffset, clock and timeslot at opposite ends of the range, rotation check with the clock behind the window; named integer constants are resolved by the literal extractor. Round 5: the rotation thread on a server without any device, and with only a banned one, rotates by the same rule.",
     "note": "Trusted: Coq kernel + vm_compute, the constants translator, the harness. The rotation thread is modelled as a schedule automaton (wake-up period P, rotation duration D as parameters); wall-clock behaviour of time.Now is sandwiched, not proved.",
     "technique": "Coq proof (lia, induction over schedules) + regenerated constants + differential correspondence (vm_compute)",
 }
